@@ -13,6 +13,6 @@ PROP = dict(
              "P2P/consensus payloads, state roots, MPT nodes, NEF, manifests, notifications and all JSON forms are tied by direct round-trip and decoder-robustness checks only (no model)",
 )
 META = dict(
-    text="(draft)",
-    note="(draft)",
+    text="Proved in Coq for all values and all byte strings: reader/writer primitives (var-uint incl. acceptance of non-minimal forms, var-bytes with maxima checked before allocation, fixed-width integers, arrays) and the binary codecs of witness, attributes, witness conditions (recursive, nesting limit), signer, transaction (both decode paths), header, block shape and stack-item serialisation (count/size/depth limits): decode(encode v) = v for well-formed v, everything a decoder accepts re-encodes (never longer) to bytes that decode to the same value, size = length of the encoding, every successful decode consumes input (no stuck case, no amplification), and a transaction's identity (hashed bytes, size) is a function of the decoded value - with the witness that it cannot be taken from the received bytes. The models follow the Go mechanism (same field order, limits and validity checks) and are tied to the code by differential evaluation including SHA-256 of the hashable part computed inside Coq. Partial: P2P/consensus payloads, state roots, MPT nodes, NEF, manifests, notifications and all JSON forms have no model - for them round trip, size, fixpoint, identity and decoder robustness (no panic, hang or unbounded allocation, each decode in a guarded child process) are checked on generated, mutated and boundary inputs only. Ten defects of the unchanged tree are reported as known findings (F9, F11, F12, F16, F17, F18, F19, F28, F33, F34) with patches on file.",
+    note="Trusted: Coq kernel and vm_compute, hand-written models tied by correspondence only, Common/Sha256.v (compared with Go on every hash of the run), the Go harness and its guarded child process, the orchestration script. Public keys are opaque 33-byte values in the model (curve checks not modelled); Go pointer identity of stack items is not modelled.",
 )
